@@ -132,6 +132,10 @@ def run(c):
     c.extra["outcome_counts"] = cnt
     c.extra["conformance_divergences"] = res["div"][:20]
     c.extra["conformance_divergence_count"] = res["ndiv"]
+    if res["ndiv"]:
+        kinds = collections.Counter((d["what"], d["model"], d["impl"]) for d in res["div"])
+        log("NOTE C06: %d outcomes differ from the as-built model M (diagnostic, not a verdict); e.g. %s" % (
+            res["ndiv"], "; ".join("%s: model=%s impl=%s" % k for k in list(kinds)[:4])))
 
     stages = collections.Counter()
     accepted_by_sel = collections.Counter()
@@ -190,6 +194,7 @@ def run(c):
                 raise Infra("signature %s did not reproduce from %s" % (s, paths[s]))
         c.add_violations(confirmed)
     c.extra["signatures_seen"] = len(first)
+    c.extra["violating_cases"] = cnt.get("violating", 0)
 
     c.assumptions += [
         "TLC and the Json community module are trusted; exhaustive model checking is bounded by the constants in specs/AnteRoute_*.cfg",
